@@ -35,7 +35,7 @@ const (
 // or the length doesn't match return false.
 func consumeSingleTURNFrame(b []byte) (int, error) {
 	// Too short to determine if ChannelData or STUN
-	if len(b) < 9 {
+	if len(b) < channelDataHeaderSize {
 		return 0, errIncompleteTURNFrame
 	}
 
